@@ -719,6 +719,14 @@ val aligned_b : char list -> bool
 
 val text_guard : char list -> bool
 
+type xtok =
+| XCmp of cmpop
+| XIf
+| XElse
+| XAnd
+| XOr
+| XNot
+
 type ctok =
 | CRead of char list * z
 | CFun of char list
@@ -733,15 +741,23 @@ type ctok =
 | CComma
 | CAssign
 | CBad
+| CX of xtok
 
 val tok_of_match : tmatch -> ctok
 
 val tok_of_char : char -> ctok
 
+val is_opc : char -> bool
+
+val op1 : char -> ctok
+
+val op2 : char -> ctok
+
 type lstate =
 | LNone
 | LNum of char list
 | LStar
+| LOp of char
 
 val flush : lstate -> ctok list
 
@@ -788,6 +804,32 @@ val p_expr :
   (char list -> nat option) -> nat -> ctok list -> (sexpr * ctok list) option
 
 val tree_fuel : ctok list -> nat
+
+type scond =
+| SCmp of cmpop * sexpr * sexpr
+| SAnd of scond * scond
+| SOr of scond * scond
+| SNot of scond
+
+type stest =
+| SVal of sexpr
+| SIf of sexpr * scond * stest
+
+val mk_if : scond -> sexpr -> sexpr -> sexpr
+
+val denote : stest -> sexpr
+
+val p_or :
+  (char list -> nat option) -> nat -> ctok list -> (scond * ctok list) option
+
+val p_test :
+  (char list -> nat option) -> nat -> ctok list -> (stest * ctok list) option
+
+val test_fuel : ctok list -> nat
+
+val src_of_tokens :
+  (char list -> nat option) -> ctok list -> (((char list * nat) * z) * stest)
+  option
 
 val stmt_of_tokens :
   (char list -> nat option) -> ctok list -> (char list * sstmt) option
